@@ -87,6 +87,15 @@ def table() -> dict[str, Prop]:
                           "image re-enters the inline parser on a fresh state; its depth is bounded by the label scan's skipToken guard (not checked)"],
              not_decided="totality itself: termination of every scan loop (only 'a match advances the cursor' is decided, not strict "
                          "increase), absence of every exception class (KeyError / ValueError from int(), RecursionError inside re)"))
+    from .rules import token_rules as TK
+    reg(Prop("C02", "construction discipline of the token stream: the token constructors keep level bookkeeping (LVL); every rule and "
+             "dispatcher is level-neutral on every path and open/close literals agree (PAIR); only push adds tokens / stores the "
+             "level in the rule modules (PUSH); validation mode is pure (SILENT); children only on inline / image carriers (KIDS); "
+             "the placeholder kind text_special is eliminated in every list the inline parser can fill (LIFE)",
+             [TK.rule_lvl, TK.rule_pair, TK.rule_push, TK.rule_silent, TK.rule_kids, TK.rule_life],
+             not_decided="that delimiter matching (balance_pairs) pairs correctly for every delimiter sequence, that adjacent text is "
+                         "always merged, and markup equality of the retyped emphasis pairs beyond the literals (index arithmetic "
+                         "over runtime lists)"))
     return props
 
 
@@ -98,6 +107,9 @@ NOT_APPLICABLE["C06"] = ("a metamorphic relation between the parses of two diffe
                          "frames) are claimed under C07 and C17 instead")
 
 TECHNIQUE = {
+    "C02": "typestate (flag valuation x level offset) over per-function CFGs with co-inductive callee summaries; value numbering "
+           "of the push bodies specialised on the nesting literal; literal-agreement and who-may-write queries; dominance of "
+           "`not silent` via predicate dataflow; traversal-coverage analysis of the placeholder eliminator",
     "C01": "zone (difference-bound) dataflow over per-function CFGs for index bounds with validated entry contracts; value "
            "numbering with symbolic entry values for cursor progress / restoration; definite-assignment dataflow with flag "
            "correlation; sibling lockstep and who-may-raise queries",
